@@ -62,9 +62,12 @@ func (lb *WeightedRandomLoadBalance) getIndex() int {
 func (lb *WeightedRandomLoadBalance) Handler(ctx context.Context, request []byte, next core.NextIOHandler) (response []byte, err error) {
 	index := lb.getIndex()
 	core.GetClientContext(ctx).URL = lb.URLs[index]
+	panicking := true // panic(nil) makes recover return nil: only this tells it from a return
 	defer func() {
 		if e := recover(); e != nil {
 			err = core.NewPanicError(e)
+		} else if panicking {
+			err = core.NewPanicError("panic called with nil argument")
 		}
 		lb.rwlock.Lock()
 		if err == nil {
@@ -76,5 +79,7 @@ func (lb *WeightedRandomLoadBalance) Handler(ctx context.Context, request []byte
 		}
 		lb.rwlock.Unlock()
 	}()
-	return next(ctx, request)
+	response, err = next(ctx, request)
+	panicking = false
+	return
 }
